@@ -129,4 +129,110 @@ theorem admit_sound_order (roots : List Cert) (sigOK : SigOracle) (o : Opts) (cs
   · have : z = r := hco z hzU r (List.mem_append_right _ hr) hid
     rw [hz, this]
 
+/-- Non-vacuity of `admit_sound`: a three-certificate PKI (leaf 0 ← intermediate 1 ← root 2), root omitted
+from the submission, window and clock options in force; the model admits `[0, 1]` and returns `[0, 1, 2]`. -/
+def exCert (id subject issuer : Nat) (ca : Bool) : Cert :=
+  { (default : Cert) with id := id, subject := subject, issuer := issuer, version := 3, bcValid := true, isCA := ca, keyUsage := (if ca then 4 + 32 else 1), pkAlgKnown := true, notAfter := 1000, ekus := [1] }
+def exSig : SigOracle := fun a b => [(0, 1), (1, 2), (2, 2), (3, 2)].contains (a.id, b.id)
+def exOpts : Opts := { now := 900, notAfterStart := some 1000, notAfterLimit := some 1001, acceptOnlyCA := false, rejectExpired := true, rejectUnexpired := false, rejectExtIds := [7], extKeyUsages := [1, 2] }
+def exL := exCert 0 12 11 false
+def exI := exCert 1 11 10 true
+def exR := exCert 2 10 10 true
+
+example : validateChain [exR] exSig exOpts [some exL, some exI] = .ok [exL, exI, exR] := by decide
+example : validateChain [exR] exSig exOpts [some exL, some exI, some exR] = .ok [exL, exI, exR] := by decide
+example : validateChain [exR] exSig exOpts [some exL, some exR] = .error (.verify .unknownAuthority) := by decide
+example : validateChain [exR] exSig exOpts [some exI, some exL] = .error .notEquivalent := by decide
+example : validateChain [exR] exSig { exOpts with notAfterLimit := some 1000 } [some exL, some exI] = .error .notAfterLimit := by decide
+example : validateChain [exR] exSig exOpts [some exL, none] = .error .parse := by decide
+example : Coherent ([exL, exI] ++ [exR]) := by unfold Coherent; decide
+
+/-! ## The NotAfter window (regenerated conditions) -/
+
+/-- **window_iff.** Over the two conditions regenerated from `ValidateChain`: the leaf passes both NotAfter
+checks iff `start ≤ t < limit`, each bound applying only when configured. -/
+theorem window_iff (t : Int) (start limit : Option Int) :
+    (Gen.naStartFails t start = false ∧ Gen.naLimitFails t limit = false) ↔
+      ((∀ s, start = some s → s ≤ t) ∧ (∀ l, limit = some l → t < l)) := by
+  unfold Gen.naStartFails Gen.naLimitFails
+  cases start <;> cases limit <;> simp <;> omega
+
+example : Gen.naStartFails 1000 (some 1000) = false ∧ Gen.naLimitFails 1000 (some 1001) = false := by decide
+example : Gen.naLimitFails 1000 (some 1000) = true ∧ Gen.naStartFails 999 (some 1000) = true := by decide
+
+/-- The expiry options over the regenerated conditions: `rejectExpired` passes iff `now ≤ NotAfter`,
+`rejectUnexpired` passes iff `now > NotAfter` (so both together reject everything). -/
+theorem expiry_iff (now t : Int) (rejExp rejUnexp : Bool) :
+    (Gen.rejectExpiredFails rejExp (Gen.expired now t) = false ∧ Gen.rejectUnexpiredFails rejUnexp (Gen.expired now t) = false) ↔
+      ((rejExp = true → now ≤ t) ∧ (rejUnexp = true → t < now)) := by
+  unfold Gen.rejectExpiredFails Gen.rejectUnexpiredFails Gen.expired
+  cases rejExp <;> cases rejUnexp <;> simp <;> omega
+
+example : Gen.rejectExpiredFails true (Gen.expired 1000 1000) = false ∧ Gen.rejectExpiredFails true (Gen.expired 1001 1000) = true := by decide
+
+/-! ## Precertificates and endpoints -/
+
+/-- **poison_classification** (first half): a leaf counts as a precertificate exactly when its (first) poison
+extension is critical with value `05 00`; any other poison extension is an error; no poison extension: a
+certificate. -/
+theorem poison_classification (c : Cert) :
+    (isPrecertificate c = .ok true ↔ c.poison = .present true true) ∧
+    (isPrecertificate c = .ok false ↔ c.poison = .absent) ∧
+    (isPrecertificate c = .error () ↔ ∃ cr nl, c.poison = .present cr nl ∧ ¬(cr = true ∧ nl = true)) := by
+  unfold isPrecertificate Gen.poisonInvalid
+  cases hp : c.poison with
+  | absent => simp
+  | present cr nl => cases cr <;> cases nl <;> simp
+
+example : isPrecertificate { (default : Cert) with poison := .present true true } = .ok true := by decide
+example : isPrecertificate { (default : Cert) with poison := .present false true } = .error () := by decide
+
+/-- **poison_classification** (second half): `verifyAddChain` admits exactly the chains `ValidateChain`
+admits whose leaf kind is the endpoint's kind.  Hence a malformed poison extension is rejected on both
+endpoints and a kind ≠ endpoint submission is rejected. -/
+theorem endpoint_kind (roots : List Cert) (sigOK : SigOracle) (o : Opts) (raw : List (Option Cert)) (expectingPrecert : Bool) (p : List Cert) :
+    verifyAddChain roots sigOK o raw expectingPrecert = .ok p ↔
+      (validateChain roots sigOK o raw = .ok p ∧ ∃ l, p.head? = some l ∧ isPrecertificate l = .ok expectingPrecert) := by
+  unfold verifyAddChain
+  cases hv : validateChain roots sigOK o raw with
+  | error e => simp
+  | ok q =>
+    dsimp only
+    constructor
+    · intro h
+      split at h
+      · simp at h
+      rename_i l hl
+      split at h
+      · simp at h
+      rename_i k hk
+      split at h
+      · simp at h
+      rename_i hm
+      simp only [Except.ok.injEq] at h
+      subst h
+      refine ⟨rfl, l, hl, ?_⟩
+      rw [hk]
+      cases k <;> cases expectingPrecert <;> simp_all [Gen.kindMismatch]
+    · rintro ⟨e, l, hl, hk⟩
+      simp only [Except.ok.injEq] at e
+      subst e
+      simp [hl, hk, Gen.kindMismatch]
+
+/-- A submission whose leaf has a malformed poison extension is rejected by both endpoints, and a
+well-formed leaf is rejected by the endpoint of the other kind. -/
+theorem kind_mismatch_rejected (roots : List Cert) (sigOK : SigOracle) (o : Opts) (l : Cert) (rest : List (Option Cert)) (e : Bool)
+    (h : isPrecertificate l ≠ .ok e) : ∀ p, verifyAddChain roots sigOK o (some l :: rest) e ≠ .ok p := by
+  intro p hp
+  obtain ⟨hv, l', hl', hk⟩ := (endpoint_kind roots sigOK o _ e p).1 hp
+  obtain ⟨l'', rest', hraw, _, hhead, _⟩ := admit_sound roots sigOK o _ p hv
+  have : l'' = l := by simp at hraw; exact hraw.1.symm
+  subst this
+  rw [hhead] at hl'; cases hl'
+  exact h hk
+
+example : verifyAddChain [exR] exSig exOpts [some exL, some exI] false = .ok [exL, exI, exR] := by decide
+example : verifyAddChain [exR] exSig exOpts [some exL, some exI] true = .error .kind := by decide
+example : verifyAddChain [exR] exSig exOpts [some { exL with poison := .present true false }, some exI] true = .error .poison := by decide
+
 end C02
